@@ -307,6 +307,7 @@ def _is_undefined_reference(sym):
         and not sym.is_constant
         and not sym.nodes
         and not kconfiglib._looks_like_number(sym.name)
+        and not kconfiglib.is_float(sym.name)
     )
 
 
